@@ -8,14 +8,14 @@ Import ListNotations.
 
 Definition pool := (list sobj * list ev)%type.        (* the log newest first, as in C13_Alloc.st *)
 Definition blank : sobj := {| held := None; bsz := 0 |}.      (* a slot whose object is not constructed yet / already destroyed *)
-Fixpoint upd (i : nat) (o : sobj) (l : list sobj) : list sobj :=
-  match l with [] => [] | x :: r => match i with O => o :: r | S i' => x :: upd i' o r end end.
+Fixpoint upd_obj (i : nat) (o : sobj) (l : list sobj) : list sobj :=
+  match l with [] => [] | x :: r => match i with O => o :: r | S i' => x :: upd_obj i' o r end end.
 (* one primitive executed by object number i (a number outside the pool: nothing happens) *)
 Definition pstep (p : pool) (ip : nat * prim) : pool :=
   let (objs, log) := p in
   match nth_error objs (fst ip) with
   | None => p
-  | Some o => let (o', log') := step (o, log) (snd ip) in (upd (fst ip) o' objs, log')
+  | Some o => let (o', log') := step (o, log) (snd ip) in (upd_obj (fst ip) o' objs, log')
   end.
 (* the destructors of every object of the pool, last constructed slot first *)
 Definition destroy_all (objs : list sobj) (log : list ev) : list ev :=
